@@ -55,7 +55,7 @@ func TestVerifC20(t *testing.T) {
 		c20Child()
 		return
 	}
-	rep := newVerifReport("C20", "(history) generated per-user event lists (random kinds, monotonic create times around the retention edge) recorded by the real recorder, saved, loaded by a fresh recorder: the list after load == the list before, same order, minus entries older than retention, also after a second save/load cycle; expiry of old events drops exactly the stale ones; a child process saving growing histories in a loop is SIGKILLed at seeded instants and the file must decode to a completely saved history; the real 5-second save timer path through the public channels, once per event kind as the last event after an answered events request, then restart; class = (events per user, stale share, cycle)")
+	rep := newVerifReport("C20", "(history) generated per-user event lists (random kinds, monotonic create times around the retention edge) recorded by the real recorder, saved, loaded by a fresh recorder: the list after load == the list before, same order, minus entries older than retention, also after a second save/load cycle; expiry of old events drops exactly the stale ones, and fresh events recorded afterwards survive the next expiry and a restart; a child process saving growing histories in a loop is SIGKILLed at seeded instants and the file must decode to a completely saved history; the real 5-second save timer path through the public channels, once per event kind as the last event after an answered events request, then restart; class = (events per user, stale share, cycle)")
 	defer rep.Finish()
 	rng := verifRand("c20hist")
 	dir, _ := os.MkdirTemp("", "verif-c20-")
@@ -153,6 +153,48 @@ func TestVerifC20(t *testing.T) {
 				}
 			}
 			rep.Count("expiries_checked", 1)
+			// the users come back after the expiry (also those whose whole history had just expired): fresh events, then
+			// the next hourly expiry; nothing fresh may be lost and the order is kept
+			want2 := EventsMap{}
+			for user := range expect {
+				before := append([]EventType{}, live[user]...)
+				c20Record(sr, user, []uint64{now - 20, now - 10}, rng)
+				after := c20View(sr)[user]
+				if len(after) < 2 {
+					rep.Violate("C20/history/fresh-events-not-recorded", "events recorded after an expiry do not show in the live view", map[string]interface{}{"user": user, "view": c20Brief(after)})
+					continue
+				}
+				want2[user] = append(append([]EventType{}, after[:2]...), before...)
+			}
+			sr.expireOldEvents()
+			live2 := c20View(sr)
+			okAll := true
+			for user, w := range want2 {
+				if !c20SameOrder(w, live2[user], now-retention) {
+					okAll = false
+					rep.Violate("C20/history/second-expiry-drops-fresh-events", "after a user's old history expired, the next expiry dropped (or reordered) events recorded since",
+						map[string]interface{}{"user": user, "want_newest_first": c20Brief(w), "got": c20Brief(live2[user])})
+				}
+			}
+			if okAll {
+				rep.Count("second_expiries_checked", 1)
+			}
+			// and the same after a save / load
+			f2 := filepath.Join(dir, fmt.Sprintf("h%d-after-expiry.gob", i))
+			if err := saveEvents(f2, live2); err == nil {
+				if m, err := loadEvents(f2); err == nil {
+					sr3 := c20NewRecorder()
+					sr3.eventsMap = m
+					got3 := c20View(sr3)
+					for user, w := range want2 {
+						if !c20SameOrder(w, got3[user], now-retention) {
+							rep.Violate("C20/history/fresh-events-lost-across-restart", "events recorded after an expiry are missing or reordered after save and load",
+								map[string]interface{}{"user": user, "want_newest_first": c20Brief(w), "got": c20Brief(got3[user])})
+						}
+					}
+				}
+				os.Remove(f2)
+			}
 		}
 	}
 	// ---- public channels + the real 5 s save timer + restart: one live recorder per event kind, all at once.  Each
@@ -320,6 +362,7 @@ func TestVerifC20(t *testing.T) {
 	}
 	rep.Floor("histories_roundtripped", 100)
 	rep.Floor("expiries_checked", 50)
+	rep.Floor("second_expiries_checked", 50)
 	rep.Floor("live_restart_ok", 5)
 	rep.Floor("crash_files_consistent", 3)
 }
